@@ -404,6 +404,30 @@ fn put_options(op: &Value) -> PutOptions {
             o.extra_metadata.insert("verif".to_string(), format!("extra-{}", id("extra")));
         }
     }
+    // ACL metadata (C12): shape "ok" writes well-formed values, other shapes write what the policy must deny
+    if let Some(a) = op["acl"].as_object() {
+        let g = |k: &str| a.get(k).and_then(|v| v.as_str()).unwrap_or("").to_string();
+        let list = |k: &str| -> Option<String> {
+            a.get(k).and_then(|v| v.as_array()).map(|xs| serde_json::to_string(&xs.iter().filter_map(|x| x.as_str()).collect::<Vec<_>>()).unwrap())
+        };
+        let shape = g("shape");
+        if shape != "missing" {
+            if shape != "no_tenant" {
+                let t = g("tenant");
+                o.extra_metadata.insert("acl_tenant_id".into(), if shape == "quoted" { format!("\"{t}\"") } else if shape == "padded" { format!("  {t} ") } else { t });
+            }
+            o.extra_metadata.insert("acl_visibility".into(), if shape == "bad_vis" { "internal".into() } else { g("vis") });
+            if let Some(r) = list("roles") {
+                o.extra_metadata.insert("acl_read_roles".into(), if shape == "bad_list" { "not-json".into() } else { r });
+            }
+            if let Some(r) = list("groups") {
+                o.extra_metadata.insert("acl_read_groups".into(), r);
+            }
+            if let Some(r) = list("principals") {
+                o.extra_metadata.insert("acl_read_principals".into(), r);
+            }
+        }
+    }
     o.extraction_budget_ms = op["budget_ms"].as_u64().unwrap_or(0);
     o.auto_tag = op["auto_tag"].as_bool().unwrap_or(false);
     o.extract_dates = op["extract_dates"].as_bool().unwrap_or(false);
@@ -421,6 +445,46 @@ fn put_options(op: &Value) -> PutOptions {
         _ => {}
     }
     o
+}
+
+/// Query atoms -> query string: "w3" a vocabulary word, "T2" tag:tag-2, "L1" label:label-1, keywords and parentheses as is.
+fn query_of(op: &Value) -> String {
+    if let Some(q) = op["q"].as_str() {
+        return q.to_string();
+    }
+    let mut parts = Vec::new();
+    for t in op["toks"].as_array().cloned().unwrap_or_default() {
+        let s = t.as_str().unwrap_or("");
+        if let Some(n) = s.strip_prefix('w').and_then(|x| x.parse::<usize>().ok()) {
+            parts.push(VOCAB[n % VOCAB.len()].to_string());
+        } else if let Some(n) = s.strip_prefix('T') {
+            parts.push(format!("tag:tag-{n}"));
+        } else if let Some(n) = s.strip_prefix('L') {
+            parts.push(format!("label:label-{n}"));
+        } else {
+            parts.push(s.to_string());
+        }
+    }
+    parts.join(" ")
+}
+
+fn acl_ctx(op: &Value) -> (Option<memvid_core::types::AclContext>, memvid_core::types::AclEnforcementMode) {
+    use memvid_core::types::{AclContext, AclEnforcementMode};
+    let mode = if op["mode"].as_str() == Some("enforce") { AclEnforcementMode::Enforce } else { AclEnforcementMode::Audit };
+    let ctx = op["ctx"].as_object().map(|c| AclContext {
+        tenant_id: c.get("tenant").and_then(|v| v.as_str()).map(String::from),
+        subject_id: c.get("subject").and_then(|v| v.as_str()).map(String::from),
+        roles: c.get("roles").and_then(|v| v.as_array()).map(|a| a.iter().filter_map(|x| x.as_str().map(String::from)).collect()).unwrap_or_default(),
+        group_ids: c.get("groups").and_then(|v| v.as_array()).map(|a| a.iter().filter_map(|x| x.as_str().map(String::from)).collect()).unwrap_or_default(),
+    });
+    (ctx, mode)
+}
+
+fn hit_json(m: &mut Memvid, h: &memvid_core::types::SearchHit) -> Value {
+    let text = catch_unwind(AssertUnwindSafe(|| m.frame_text_by_id(h.frame_id))).ok().and_then(|r| r.ok());
+    let text_ok = text.as_ref().and_then(|t| t.get(h.range.0..h.range.1)).is_some_and(|s| s == h.text);
+    let (ca, cb) = h.chunk_range.unwrap_or((0, usize::MAX >> 40));
+    json!({"f": h.frame_id, "rank": h.rank, "a": h.range.0, "b": h.range.1, "ca": ca, "cb": cb, "text_ok": text_ok})
 }
 
 fn words_of(op: &Value) -> Vec<String> {
@@ -711,6 +775,145 @@ pub fn exec(ctx: &mut Ctx, op: &Value) -> (Value, Value) {
                         }
                     }
                     err.unwrap_or_else(|| res_ok(json!(out)))
+                }
+            }
+        }
+        "search" => {
+            use memvid_core::types::SearchRequest;
+            let q = query_of(op);
+            let (ctx_acl, mode) = acl_ctx(op);
+            let mk = |top_k: usize, cursor: Option<String>, with_acl: bool, cut: bool| SearchRequest {
+                query: q.clone(),
+                top_k,
+                snippet_chars: op["snippet"].as_u64().unwrap_or(120) as usize,
+                uri: op["uri"].as_str().map(String::from),
+                scope: op["scope"].as_str().map(String::from),
+                cursor,
+                as_of_frame: if cut { op["as_of_frame"].as_u64() } else { None },
+                as_of_ts: if cut { op["as_of_ts"].as_i64() } else { None },
+                no_sketch: op["no_sketch"].as_bool().unwrap_or(false),
+                acl_context: if with_acl { ctx_acl.clone() } else { None },
+                acl_enforcement_mode: if with_acl { mode } else { memvid_core::types::AclEnforcementMode::Audit },
+            };
+            let top_k = op["top_k"].as_u64().unwrap_or(10) as usize;
+            match ctx.mem.as_mut() {
+                None => json!({"ok": false, "err": "NoHandle"}),
+                Some(m) => {
+                    let r = catch_unwind(AssertUnwindSafe(|| m.search(mk(top_k, None, true, true))));
+                    match r {
+                        Err(p) => res_panic(p),
+                        Ok(Err(e)) => res_err(&e),
+                        Ok(Ok(resp)) => {
+                            let hits: Vec<Value> = resp.hits.iter().map(|h| hit_json(m, h)).collect();
+                            let mut val = json!({"total": resp.total_hits, "hits": hits, "next": resp.next_cursor.is_some(),
+                                                 "engine": format!("{:?}", resp.engine)});
+                            // the same query without time-travel cut-off and without ACL context, large top_k (C11 / C12 reference)
+                            if op["with_base"].as_bool().unwrap_or(false) {
+                                if let Ok(Ok(b)) = catch_unwind(AssertUnwindSafe(|| m.search(mk(1000, None, false, false)))) {
+                                    let mut fs: Vec<u64> = b.hits.iter().map(|h| h.frame_id).collect();
+                                    fs.sort_unstable();
+                                    fs.dedup();
+                                    val["base"] = json!(fs);
+                                    val["base_seq"] = json!(b.hits.iter().map(|h| json!([h.frame_id, h.range.0, h.range.1])).collect::<Vec<_>>());
+                                }
+                            }
+                            // C16: follow the cursor to the end with this page size
+                            if op["paged"].as_bool().unwrap_or(false) {
+                                let mut pages = vec![json!(resp.hits.iter().map(|h| json!([h.frame_id, h.range.0, h.range.1])).collect::<Vec<_>>())];
+                                let mut totals = vec![resp.total_hits];
+                                let mut cur = resp.next_cursor.clone();
+                                let mut guard_n = 0;
+                                while let Some(c) = cur {
+                                    guard_n += 1;
+                                    if guard_n > 400 {
+                                        val["paging_runaway"] = json!(true);
+                                        break;
+                                    }
+                                    match catch_unwind(AssertUnwindSafe(|| m.search(mk(top_k, Some(c), true, true)))) {
+                                        Ok(Ok(pg)) => {
+                                            pages.push(json!(pg.hits.iter().map(|h| json!([h.frame_id, h.range.0, h.range.1])).collect::<Vec<_>>()));
+                                            totals.push(pg.total_hits);
+                                            cur = pg.next_cursor.clone();
+                                        }
+                                        Ok(Err(e)) => {
+                                            val["paging_err"] = res_err(&e);
+                                            break;
+                                        }
+                                        Err(p) => {
+                                            val["paging_err"] = res_panic(p);
+                                            break;
+                                        }
+                                    }
+                                }
+                                val["pages"] = json!(pages);
+                                val["totals"] = json!(totals);
+                                if let Ok(Ok(all)) = catch_unwind(AssertUnwindSafe(|| m.search(mk(1000, None, true, true)))) {
+                                    val["oneshot"] = json!(all.hits.iter().map(|h| json!([h.frame_id, h.range.0, h.range.1])).collect::<Vec<_>>());
+                                    val["oneshot_total"] = json!(all.total_hits);
+                                }
+                            }
+                            res_ok(val)
+                        }
+                    }
+                }
+            }
+        }
+        "vsearch" => {
+            // query vector = embedding(id, dim) (the same deterministic integer vectors the puts use)
+            let e = op["emb"].as_u64().unwrap_or(1);
+            let dim = op["dim"].as_u64().unwrap_or(4) as usize;
+            let k = op["k"].as_u64().unwrap_or(5) as usize;
+            let qv = embedding(e, dim);
+            match ctx.mem.as_mut() {
+                None => json!({"ok": false, "err": "NoHandle"}),
+                Some(m) => guard(|| m.search_vec(&qv, k), |hits| {
+                    json!(hits.iter().map(|h| json!({"f": h.frame_id, "d2": (h.distance * h.distance).round() as i64})).collect::<Vec<_>>())
+                }),
+            }
+        }
+        "vtext" | "adaptive" | "ask" => {
+            // the other retrieval paths (C08 / C12): which frames do they return?
+            let q = query_of(op);
+            let e = op["emb"].as_u64().unwrap_or(1);
+            let dim = op["dim"].as_u64().unwrap_or(4) as usize;
+            let qv = embedding(e, dim);
+            let (ctx_acl, mode) = acl_ctx(op);
+            let top_k = op["top_k"].as_u64().unwrap_or(10) as usize;
+            match ctx.mem.as_mut() {
+                None => json!({"ok": false, "err": "NoHandle"}),
+                Some(m) => {
+                    if name == "vtext" {
+                        guard(|| m.vec_search_with_embedding_acl(&q, &qv, top_k, 120, None, ctx_acl.as_ref(), mode),
+                              |r| json!({"frames": r.hits.iter().map(|h| h.frame_id).collect::<Vec<_>>()}))
+                    } else if name == "adaptive" {
+                        let cfg = memvid_core::types::AdaptiveConfig { max_results: 50, ..Default::default() };
+                        guard(|| m.search_adaptive_acl(&q, &qv, cfg, 120, None, ctx_acl.as_ref(), mode),
+                              |r| json!({"frames": r.results.iter().map(|h| h.frame_id).collect::<Vec<_>>()}))
+                    } else {
+                        use memvid_core::types::{AskMode, AskRequest};
+                        let req = AskRequest {
+                            question: q.clone(), top_k, snippet_chars: 120, uri: None, scope: None, cursor: None, start: None, end: None,
+                            context_only: true, mode: AskMode::Lex, as_of_frame: op["as_of_frame"].as_u64(), as_of_ts: op["as_of_ts"].as_i64(),
+                            adaptive: None, acl_context: ctx_acl.clone(), acl_enforcement_mode: mode,
+                        };
+                        struct NoEmb;
+                        impl memvid_core::types::VecEmbedder for NoEmb {
+                            fn embed_query(&self, _t: &str) -> memvid_core::Result<Vec<f32>> {
+                                Ok(Vec::new())
+                            }
+                            fn embedding_dimension(&self) -> usize {
+                                0
+                            }
+                        }
+                        guard(|| m.ask::<NoEmb>(req, None), |r| {
+                            let mut fs: Vec<u64> = r.retrieval.hits.iter().map(|h| h.frame_id).collect();
+                            fs.extend(r.citations.iter().map(|c| c.frame_id));
+                            fs.extend(r.context_fragments.iter().map(|c| c.frame_id));
+                            fs.sort_unstable();
+                            fs.dedup();
+                            json!({"frames": fs})
+                        })
+                    }
                 }
             }
         }
